@@ -34,6 +34,9 @@ type SrvCfg struct {
 	MaxFileSize  int64  `json:"max_file_size,omitempty"`
 	Secure       bool   `json:"secure,omitempty"`
 	ViaTuning    bool   `json:"via_tuning,omitempty"` // as a runtime update: through UpdateTuningOptions (transfer size only)
+	// OpTimeoutMs > 0: every per-procedure time-out (read, write, lookup, readdir, create, remove, rename,
+	// handle) is this short; the request time-out keeps its default (30 s)
+	OpTimeoutMs int `json:"op_timeout_ms,omitempty"`
 }
 
 func (c SrvCfg) options() absnfs.ExportOptions {
@@ -45,6 +48,10 @@ func (c SrvCfg) options() absnfs.ExportOptions {
 	}
 	if o.MaxWorkers == 0 {
 		o.MaxWorkers = 2
+	}
+	if c.OpTimeoutMs > 0 {
+		d := time.Duration(c.OpTimeoutMs) * time.Millisecond
+		o.Timeouts = &absnfs.TimeoutConfig{ReadTimeout: d, WriteTimeout: d, LookupTimeout: d, ReaddirTimeout: d, CreateTimeout: d, RemoveTimeout: d, RenameTimeout: d, HandleTimeout: d}
 	}
 	return o
 }
